@@ -111,6 +111,36 @@ def run_boundary(vals, latency, delay, cut, scale):
     return grid, out
 
 
+def run_ns(vals, cut, scale):
+    """quotes loaded from a price table (Transmitter.add_prices) with nanosecond stamps: one at each timestep t and one at t + 500 ns;
+    every quote stamped after grid[cut] is scaled"""
+    d = pd.Timestamp("2020-01-06 09:00")
+    n = len(vals)
+    grid = [d + pd.Timedelta(days=i) for i in range(n)]
+    spy = ETF("SPY")
+    rows = {}
+    for i, g in enumerate(grid):
+        rows[g] = vals[i]
+        t2 = g + pd.Timedelta(500, unit="ns")
+        rows[t2] = vals[i] * 1.05 * (scale if t2 > grid[cut] else 1.0)
+    for i, g in enumerate(grid):
+        if g > grid[cut]:
+            rows[g] = vals[i] * scale
+    prices = pd.DataFrame({spy: pd.Series(rows)}).sort_index()
+    tr = Transmitter(grid)
+    tr.add_prices(prices, spread=0.002)
+    env = TradingEnv(action_space=BoxPortfolio([spy], -1, 1), transmitter=tr, broker_fees=BrokerFees(proportional=0.001))
+    env.reset()
+    acts = np.random.default_rng(78).uniform(0.2, 1, n)
+    out, done, k = [], False, 0
+    while not done:
+        _, r, done, info = env.step(np.array([acts[k]]))
+        k += 1
+        rb = info.get("_rebalancing")
+        out.append(([(str(t.contract), t.quantity, t.acq_price) for t in rb.trades] if rb else None, r, env.broker.net_liquidation_value()))
+    return out
+
+
 def latency_boundary(tier, seed):
     acc = Acc("second clause of C02: daily bars with quotes at t+{0, L-0.5, L, L+1ms, L+0.4s, L+0.999s, L+1s, L+30s}; every quote stamped "
               "after t_cut + L is scaled by 1.7; the trades executed in the step that follows t_cut (quantity and price) are compared with ==; "
@@ -135,6 +165,21 @@ def latency_boundary(tier, seed):
                     acc.fail("C02::shell::trades_independent_of_data_after_t_plus_latency", "c02_lookahead",
                              {"api": "boundary", "seed": seed, "latency": latency, "delay": delay, "cut": cut},
                              {"step": i, "ref": str(a[i])[:200], "alt": str(b[i])[:200]})
+    # price tables with nanosecond stamps: a quote 500 ns after a timestep belongs to the next step
+    for cut in range(0, len(base) - 1):
+        try:
+            ref, alt = run_ns(base, cut, 1.0), run_ns(base, cut, 1.7)
+        except Exception as ex:
+            acc.fail("C02::shell::episode_runs", "c02_lookahead", {"api": "ns", "seed": seed, "cut": cut}, {"error": "%s: %s" % (type(ex).__name__, str(ex)[:200])})
+            continue
+        acc.case(("ns", cut))
+        acc.validated += 2
+        # out[k] is the step from grid[k] to grid[k+1]; it ends on grid[k+1]: everything reported by steps 0..cut-1 is dated <= grid[cut]
+        a, b = ref[:cut], alt[:cut]
+        if a != b:
+            i = next(i for i, (x, y) in enumerate(zip(a, b)) if x != y)
+            acc.fail("C02::shell::outputs_up_to_t_independent_of_later_data", "c02_lookahead", {"api": "ns", "seed": seed, "cut": cut},
+                     {"step": i, "ref": str(a[i])[:200], "alt": str(b[i])[:200]})
     return acc.out()
 
 
@@ -215,6 +260,10 @@ def rerun(inp):
     if inp["api"] == "xy_gap":
         a, b = xy_gap_case(inp["seed"], inp["transformer"], inp["window"])
         return {"reproduced": a != b}
+    if inp["api"] == "ns":
+        base = list(100 * np.exp(np.cumsum(np.random.default_rng(5 + inp["seed"]).normal(0, .02, 7))))
+        ref, alt = run_ns(base, inp["cut"], 1.0), run_ns(base, inp["cut"], 1.7)
+        return {"reproduced": ref[:inp["cut"]] != alt[:inp["cut"]]}
     if inp["api"] == "boundary":
         res = latency_boundary("thorough", inp["seed"])
         hit = [f for f in res["failures"] if all(f["input"].get(k) == inp.get(k) for k in ("latency", "delay", "cut"))]
